@@ -276,8 +276,66 @@ func parseConstInt(s string) (int64, bool) {
 	return n, true
 }
 
+// yieldIndexInRange: the instruction sits in the body of `for i, v := range slices.All(S)` / `slices.Backward(S)` (compiled into
+// a yield function), idx is that i — a valid index of S by the iterators' contract — and x is S itself or a variable of the
+// enclosing function that is assigned once, only read by the loop body, and known to have S's length where the loop starts.
+func yieldIndexInRange(fi *FnInfo, x, idx ssa.Value) bool {
+	y := fi.Fn
+	if y.Synthetic != "range-over-func yield" || len(y.Params) == 0 || idx != ssa.Value(y.Params[0]) || y.Parent() == nil {
+		return false
+	}
+	parent := y.Parent()
+	var mc *ssa.MakeClosure
+	var S ssa.Value
+	var at ssa.Instruction
+	for _, ci := range allCalls(parent) {
+		for _, a := range ci.Common().Args {
+			if m, ok := a.(*ssa.MakeClosure); ok && m.Fn == ssa.Value(y) {
+				it, ok := ci.Common().Value.(*ssa.Call)
+				if !ok || len(it.Call.Args) != 1 {
+					return false
+				}
+				switch calleeName(it) {
+				case "slices.All", "slices.Backward":
+				default:
+					return false
+				}
+				mc, S, at = m, it.Call.Args[0], ci
+			}
+		}
+	}
+	if mc == nil {
+		return false
+	}
+	// x as the enclosing function sees it
+	var xp ssa.Value
+	if ld, ok := x.(*ssa.UnOp); ok && ld.Op == token.MUL {
+		if fv, ok := ld.X.(*ssa.FreeVar); ok {
+			for k, f := range y.FreeVars {
+				if f == fv && k < len(mc.Bindings) {
+					if al, ok := mc.Bindings[k].(*ssa.Alloc); ok {
+						xp = singleStore(al)
+					}
+				}
+			}
+		}
+	}
+	if xp == nil {
+		return false
+	}
+	if sameIndexed(S, xp) {
+		return true
+	}
+	g := fi.W.Info(parent).GuardsOf(at)
+	a, b := "len("+desc(S)+")", "len("+desc(xp)+")"
+	return labelHas(g, "EQ("+a+","+b+")") || labelHas(g, "EQ("+b+","+a+")")
+}
+
 // idxInRange: 0 <= idx < len(x) at instruction in.
 func idxInRange(fi *FnInfo, in ssa.Instruction, x, idx ssa.Value) bool {
+	if yieldIndexInRange(fi, x, idx) {
+		return true
+	}
 	g := fi.GuardsOf(in)
 	if g == nil {
 		return false
